@@ -10,6 +10,8 @@ from ..common import V, samples_of
 NX = 6
 PROBES = np.array([-0.5, 0.0, 1e-3, 0.37, 1.0, 2.0, 2.5, 3.0, 10.0])
 SIM_OPS = {"simA", "simB", "simC", "simA+S1", "simB+S2"}
+SET_OPS = {"setF", "setP"}  # public dataclass fields reassigned on the live object (toggles)
+ALT = {"T_ship_gas": ("S_zdip", 6500.0), "S_zdip": ("T_ship_gas", 7500.0), "S_ideal": ("S_zlin", 7000.0)}
 CONFIGS = [  # (class, table, p_f, p_i)
     ("single", "T_ship_gas", 1000.0, 8000.0),
     ("single", "S_zdip", 6000.0, 7000.0),
@@ -27,10 +29,12 @@ def schedules(p_f, p_i):
             "S2": np.array([p_f + (p_i - p_f) * f for f in (0.0, 0.6, 0.6, 0.2, 0.2, 0.9, 0.1, 0.1)])}
 
 
-def alphabet(cls):
+def alphabet(cls, with_set=True):
     if cls == "ideal":
-        return ["simA", "simB", "simC", "rf", "rf_density", "interp"]
-    return ["simA", "simB", "simC", "simA+S1", "simB+S2", "rf", "rf_density", "interp"]
+        base = ["simA", "simB", "simC", "rf", "rf_density", "interp"]
+    else:
+        base = ["simA", "simB", "simC", "simA+S1", "simB+S2", "rf", "rf_density", "interp"]
+    return base + (["setF", "setP"] if with_set else [])
 
 
 def fresh(cfg):
@@ -44,6 +48,17 @@ def fresh(cfg):
 def apply(obj, op, cfg):
     """Apply one op; returns the observation (value or ('raise', ExceptionType))."""
     g = grids()
+    if op == "setF":  # toggle between the configured fluid / initial pressure and an alternative pair
+        cls, table, p_f, p_i = cfg
+        t2, p2 = ALT[table]
+        if obj.pressure_initial == p_i:
+            obj.fluid, obj.pressure_initial = tables.fluid(t2, p2), p2
+        else:
+            obj.fluid, obj.pressure_initial = tables.fluid(table, p_i), p_i
+        return ("set", obj.pressure_initial)
+    if op == "setP":
+        obj.pressure_fracface = cfg[2] if obj.pressure_fracface != cfg[2] else 0.5 * cfg[2]
+        return ("set", obj.pressure_fracface)
     try:
         if op in SIM_OPS:
             name, _, s = op.partition("+")
@@ -76,6 +91,10 @@ def obs_equal(a, b):
     return history.same(list(a[1:]), list(b[1:]))
 
 
+def key(obj):
+    return history.canon(obj) + (("fluid", id(obj.fluid)),)
+
+
 def stored(obj):
     d = vars(obj)
     return [d.get("time"), d.get("pseudopressure")]
@@ -91,7 +110,8 @@ def check_transition(hist, op, cfg):
     live, obs_live = build(full, cfg)
     # the reference object executes only the latest simulate, the *recovery* calls made after it
     # (interpolator calls are pure reads and are dropped) and the call under observation
-    ref_hist = [o for i, o in enumerate(full[k:]) if i == 0 or o != "interp"]
+    ref_hist = [o for o in full[:k] if o in SET_OPS]  # = constructing the fresh object with those attributes
+    ref_hist += [o for i, o in enumerate(full[k:]) if i == 0 or o != "interp"]
     if op == "interp" and len(full) - k > 1:
         ref_hist.append(op)
     ref, obs_ref = build(ref_hist, cfg)
@@ -115,9 +135,9 @@ def check_state(hist, cfg):
     for op in ("rf", "rf_density", "interp"):
         obj, _ = build(hist, cfg)
         a = apply(obj, op, cfg)
-        k1 = history.canon(obj)
+        k1 = key(obj)
         b = apply(obj, op, cfg)
-        k2 = history.canon(obj)
+        k2 = key(obj)
         if not obs_equal(a, b) or k1 != k2:
             out.append(V("repeat-call", f"{op} applied twice after {hist} gives different results "
                          f"or changes state: {_short(a)} vs {_short(b)}",
@@ -142,47 +162,43 @@ def _short(o, other=None):
     return [o[0], {int(i): float(arr[i]) for i in idx}]
 
 
+def explore_config(case):
+    cfg = tuple(case["config"])
+    stats, viol = history.bfs(
+        lambda h: build(h, cfg), alphabet(cfg[0]),
+        lambda h, op: check_transition(h, op, cfg),
+        lambda h: check_state(h, cfg), case["depth"], canon=key)
+    viol.sort(key=lambda v: len(v["case"]["history"]))  # simplest first
+    kinds = {}
+    for v in viol:
+        kinds[v["oracle"]] = kinds.get(v["oracle"], 0) + 1
+    return {"violations": viol[:3], "stats": {k: stats[k] for k in
+            ("states", "transitions", "depth_reached", "frontier_closed_before_bound")},
+            "reps": [list(r) for r in stats["representatives"][-3:]], "outcome": list(kinds) or ["consistent"]}
+
+
 def run(ctx):
-    depth = 6 if ctx.thorough else 4
-    tot = {"states": 0, "transitions": 0, "traces": 0}
-    per = []
-    reps = []
-    for cfg in CONFIGS:
-        n_exec = [0]
-
-        def b(h, cfg=cfg):
-            n_exec[0] += 1
-            return build(h, cfg)
-
-        stats, viol = history.bfs(
-            b, alphabet(cfg[0]),
-            lambda h, op, cfg=cfg: check_transition(h, op, cfg),
-            lambda h, cfg=cfg: check_state(h, cfg), depth)
-        # simplest-first: report the shortest counterexample per oracle only once per config
-        viol.sort(key=lambda v: len(v["case"]["history"]))
-        ctx.add(viol[:3])
-        for v in viol:
-            ctx.outcomes[v["oracle"]] = ctx.outcomes.get(v["oracle"], 0) + 1
-        tot["states"] += stats["states"]
-        tot["transitions"] += stats["transitions"]
-        tot["traces"] += stats["transitions"] * 2 + stats["states"] * 3
-        reps += [{"config": list(cfg), "history": list(r)} for r in stats["representatives"][-3:]]
-        per.append({"config": list(cfg), **{k: stats[k] for k in
-                    ("states", "transitions", "depth_reached", "frontier_closed_before_bound")}})
-    ctx.outcomes["transition-checked"] = tot["transitions"]
+    depth = 9 if ctx.thorough else 4
+    cs = [{"config": list(cfg), "depth": depth} for cfg in CONFIGS]
+    res = ctx.pmap(explore_config, cs, chunksize=1)
+    per = [{"config": c["config"], **r["stats"]} for c, r in zip(cs, res) if "stats" in r]
+    st = sum(p["states"] for p in per)
+    tr = sum(p["transitions"] for p in per)
+    reps = [{"config": c["config"], "history": h} for c, r in zip(cs, res) for h in r.get("reps", [])]
     cov = {
-        "states": tot["states"], "transitions": tot["transitions"],
-        "traces_validated_against_impl": tot["traces"],
+        "states": st, "transitions": tr,
+        "traces_validated_against_impl": tr * 2 + st * 3,
         "samples": samples_of(reps), "depth_bound": depth, "per_config": per,
         "alphabet": {c[0]: alphabet(c[0]) for c in CONFIGS},
         "closed": all(p["frontier_closed_before_bound"] for p in per),
-        "explanation": "every trace is executed on the real reservoir object; 'closed' = the "
-                       "reachable state graph emptied the frontier before the depth bound, i.e. "
-                       "the exploration is complete for this alphabet at any depth",
+        "explanation": "every trace is executed on the real reservoir object; 'closed' = the reachable state "
+                       "graph emptied the frontier before the depth bound, i.e. the exploration is complete for "
+                       "this alphabet at any depth; setF/setP reassign public fields on the live object and the "
+                       "reference object is constructed with the field values current at the latest simulate",
     }
     return ctx.finish("model_checking", cov, [
         "reservoir methods depend only on vars(obj) and their arguments (state-merging argument)",
-        "FlowProperties object shared between fresh objects is never written by the reservoir",
+        "FlowProperties objects shared between fresh objects are never written by the reservoir (checked by C09)",
     ])
 
 
